@@ -2,8 +2,10 @@
 
 Stages: translate (tx/c18_consts.py -> coq/gen/PolyglotRandoms.v) -> prove (Properties_C18.v)
 -> build harness (real Book / PolyglotBook) + extracted model -> correspond on generated /
-corrupted polyglot files x positions -> confirm the extreme-input findings on the real code
--> (when something breaks) finder: implementation vs the legality Spec."""
+corrupted polyglot files x positions -> crafted one-key files around the weight-sum limit 2^30
+(corpus "gen" lines; witnesses of the two findings fixed by /repo commit 1be778d: code in a forked
+child, model on the collected candidates, UBSan build) -> (when something breaks) finder:
+implementation vs the legality Spec."""
 import importlib.util
 import json
 import math
@@ -605,80 +607,94 @@ def one_key_file(p, code, weights):
     return b"".join(struct.pack(">QHHI", p["keyi"], code, w, 0) for w in weights)
 
 
-def confirm_extremes(ctx, cpp, tmpdir, start):
-    """Boundary of the weight sum: sum = 2^30 works; sum > 2^30 makes Random::nextInt(sum) loop
-    forever; sum > 2^31-1 overflows the int accumulator (undefined behaviour)."""
-    e2e4 = start["pg"][start["legal"].index("12.28.0")]
-    d2d4 = start["pg"][start["legal"].index("11.27.0")]
-    cases = {
-        "sum_eq_2^30": [65535] * 16384 + [16384],
-        "sum_gt_2^30": [65535] * 16385,
-        "sum_gt_2^31": [65535] * 32769,
-    }
-    paths = {}
-    for name, ws in cases.items():
-        paths[name] = os.path.join(tmpdir, "extreme-%s.bin" % name)
-        data = one_key_file(start, e2e4, ws[:-1]) + one_key_file(start, d2d4, ws[-1:])
-        with open(paths[name], "wb") as f:
-            f.write(data)
-    # the allowed boundary first, with a generous alarm; its run time calibrates the alarm that
-    # tells a hang from a slow machine
+def load_corpus():
+    out = []
+    path = os.path.join(VERIF, "corpus", "c18.txt")
+    if os.path.exists(path):
+        for line in open(path):
+            line = line.strip()
+            if line and not line.startswith("#"):
+                out.append(json.loads(line))
+    return out
+
+
+def confirm_extremes(ctx, cpp, ml, tmpdir, start, diffs):
+    """Crafted one-key files around the weight-sum limit (corpus lines with a "gen" field: the
+    witnesses of the two former findings and the boundaries next to them).  For each: the real
+    code in a forked child under an alarm (must return; result legal or empty; a move when the
+    sum is within the limit), the model's getBookMove on the candidate list the code collected
+    (same random numbers; must agree), and the UBSan build of book.cpp/polyglot.cpp/random.cpp
+    (no runtime error).  A revert of the /repo fix shows up here as hang / signed overflow."""
     import time
-    t0 = time.time()
-    rc, l_ok, err = run_harness(cpp, "SEED 7\nFEN %s\nFILE %s\nPROBE 4 ! 120\n" % (START_FEN, paths["sum_eq_2^30"]), timeout=300)
-    t_ok = time.time() - t0
-    alarm = int(max(4, 4 * t_ok + 2))
-    rc2, l_hang, err2 = run_harness(cpp, "SEED 7\nFEN %s\nFILE %s\nPROBE 4 ! %d\n" % (START_FEN, paths["sum_gt_2^30"], alarm), timeout=300 + alarm)
-    out = {"alarm_s": alarm, "boundary_run_s": round(t_ok, 2)}
-    if rc != 0 or rc2 != 0 or len(l_ok) != 2 or len(l_hang) != 2:
-        raise RuntimeError("extreme-input run failed: rc=%d/%d lines=%s %s err=%s" % (rc, rc2, l_ok[:2], l_hang[:2], (err + err2)[-300:]))
-    lines = [l_ok[0], l_ok[1], l_hang[1]]
-    r_ok = parse_R(lines[1])
-    out["sum_eq_2^30"] = lines[1][:120]
-    out["sum_gt_2^30"] = lines[2][:120]
-    legal = set(start["legal"])
-    if "err" in r_ok or any(m not in legal for _, m, _ in r_ok["calls"]):
-        ctx.violation("weight sum exactly 2^30 (allowed by the model's guard) does not yield a legal move: %s" % lines[1][:200],
-                      {"file": "16384 entries weight 65535 + 1 entry weight 16384 under the start position's key", "fen": START_FEN,
-                       "observed": lines[1][:500]}, key="polyglot-file:weight-sum-exactly-2^30")
-    ctx.count("extreme_sum_eq_2^30_ok", 0 if "err" in r_ok else 1)
-    if lines[2].startswith("TIMEOUT"):
-        ctx.count("extreme_hang_reproduced")
-        ctx.violation("book probe never returns: Random::nextInt(sum) loops forever when the weight sum exceeds 2^30 "
-                      "(maxVal = (2^30 / sum) * sum = 0); Coq: C18_nextInt_rejects_above_range",
-                      {"file": "16385 entries (key of the start position, e2e4, weight 65535)", "bytes": 16385 * 16, "fen": START_FEN,
-                       "command": "PROBE in a forked child with a 4 s alarm", "observed": lines[2][:200]}, key=KEY_HANG)
-    else:
-        ctx.count("extreme_hang_not_reproduced")
-        r = parse_R(lines[2])
-        if "err" in r or any(m != "0.0.0" and m not in legal for _, m, _ in r["calls"]):
-            ctx.violation("weight sum above 2^30: probe fails: %s" % lines[2][:200], {"fen": START_FEN, "observed": lines[2][:500]},
-                          key=KEY_HANG + ":other")
-    # int overflow of the accumulator under UBSan (book.cpp, polyglot.cpp, random.cpp recompiled with the sanitizer)
+    cases = [c for c in load_corpus() if "gen" in c]
+    if len(cases) < 3:
+        raise RuntimeError("corpus/c18.txt lost its crafted weight-sum files")
     ub = stash(tmpdir, lambda: cbuild.build_harness("book_harness", extra_flags=SAN_UB, extra_srcs=SAN_SRCS), "book_harness_ubsan")
-    rc, lines, err = run_harness(ub, "FEN %s\nFILE %s\nPROBE 1 ! %d\n" % (START_FEN, paths["sum_gt_2^31"], 3 * alarm), timeout=300 + 3 * alarm)
-    res = lines[1] if len(lines) > 1 else "no output"
-    out["sum_gt_2^31"] = "%s | %s" % (res[:60], err.strip().split("\n")[0][:200] if err.strip() else "")
-    if "signed integer overflow" in err:
-        ctx.count("extreme_overflow_reproduced")
-        ctx.violation("signed int overflow (undefined behaviour) in the weight sum of Book::getBookMove; outside the guard of C18_weight_sum_range",
-                      {"file": "32769 entries (key of the start position, weight 65535)", "bytes": 32769 * 16, "fen": START_FEN,
-                       "ubsan": err.strip()[:600]}, key=KEY_OVF)
-    elif rc != 0 or not res.startswith("R "):
-        ctx.violation("UBSan build on the 32769-entry file: probe does not return normally (%s)" % res[:80],
-                      {"stderr": err[-800:], "rc": rc, "observed": res[:300], "file": "32769 entries (key of the start position, weight 65535)",
-                       "bytes": 32769 * 16, "fen": START_FEN}, key=KEY_OVF + ":other")
-    else:
-        ctx.count("extreme_overflow_not_reproduced")
-    # the same UBSan build must be clean on a sum just inside the int range (32768 x 65535 = 2^31 - 32768)
-    p_in = os.path.join(tmpdir, "extreme-inside.bin")
-    with open(p_in, "wb") as f:
-        f.write(one_key_file(start, e2e4, [65535] * 32768))
-    rc, lines, err = run_harness(ub, "FEN %s\nFILE %s\nPROBE 1 ! %d\n" % (START_FEN, p_in, alarm), timeout=300 + alarm)
-    ctx.count("extreme_ubsan_clean_below_2^31", 1 if "runtime error" not in err else 0)
-    if "runtime error" in err:
-        ctx.violation("UBSan reports an error with 32768 max-weight entries (inside the guard of C18_weight_sum_range)",
-                      {"stderr": err[-800:]}, key="polyglot-file:32768-entries-weight-65535:ubsan")
+    legal = set(start["legal"])
+    alarm = None
+    out = {}
+    for ci, c in enumerate(cases):
+        name = c["name"]
+        code = start["pg"][start["legal"].index(c["gen"]["move"])]
+        ws = [w for cnt, w in c["gen"]["weights"] for _ in range(cnt)]
+        total = sum(ws)
+        path = os.path.join(tmpdir, "extreme-%d.bin" % ci)
+        with open(path, "wb") as f:
+            f.write(one_key_file(start, code, ws))
+        desc = {"file": "%d entries under the key of the start position, move %s, weights (count x weight) %s" % (len(ws), c["gen"]["move"], c["gen"]["weights"]),
+                "bytes": 16 * len(ws), "weight_sum": total, "fen": START_FEN, "corpus_name": name, "gen": c["gen"]}
+        t0 = time.time()
+        rc, lines, err = run_harness(cpp, "SEED 7\nFEN %s\nFILE %s\nPROBE 4 ! %d\n" % (START_FEN, path, alarm or 120), timeout=600)
+        if alarm is None:
+            alarm = int(max(4, 4 * (time.time() - t0) + 2))       # tells a hang from a slow machine
+        if rc != 0 or len(lines) != 2:
+            raise RuntimeError("extreme-input run failed: rc=%d lines=%s err=%s" % (rc, lines[:2], err[-300:]))
+        res = lines[1]
+        out[name] = res[:70] + (" ... " + res[res.find(";calls="):][:120] if res.startswith("R ") else "")
+        ctx.evaluated()
+        ctx.count("extreme_files_probed")
+        if not res.startswith("R "):
+            ctx.count("extreme_abnormal")
+            ctx.violation("book probe does not return on a crafted file (weight sum %d): %s%s" % (
+                              total, res[:60], "; Random::nextInt(sum) rejects every trial above 2^30" if res.startswith("TIMEOUT") else ""),
+                          dict(desc, observed=res[:300], command="PROBE in a forked child with a %d s alarm" % (alarm or 120)),
+                          key=c.get("key_abnormal") or ("polyglot-file:%s:abnormal" % name))
+            continue
+        R = parse_R(res)
+        bad = [m for _, m, _ in R["calls"] if m != "0.0.0" and m not in legal]
+        if bad:
+            ctx.violation("crafted file: getBookMove returned %s, not legal" % bad[0], dict(desc, observed=res[-300:]),
+                          key="polyglot-file:%s:illegal" % name)
+        elif total <= 2 ** 30 and any(m == "0.0.0" for _, m, _ in R["calls"]):
+            ctx.violation("crafted file with weight sum %d <= 2^30 (all moves legal, positive weights): no move returned" % total,
+                          dict(desc, observed=res[-300:]), key="polyglot-file:%s:no-move" % name)
+        # model at getBookMove level on the candidate list the code collected
+        if ml:
+            ms = ["LEGAL " + " ".join(start["legal"]), "ENTS " + " ".join("%s:%d" % (m, w) for m, _, w in R["cands"]),
+                  "PROBEB " + " ".join(str(r) for r, _, _ in R["calls"])]
+            rc2, out2, err2 = run_model(ml, "\n".join(ms) + "\n", timeout=600)
+            M = parse_fields(out2.strip().split("\n")[-1]) if out2.strip() else {}
+            exp_calls = ",".join("%d:%s" % (r, m) for r, m, _ in R["calls"])
+            agree = rc2 == 0 and M.get("calls") == exp_calls and len(R["cands"]) == len(ws)
+            if not agree:
+                diffs.append({"diff": "crafted file %s (weight sum %d): implementation [%s] (%d candidates), model [%s]" % (
+                                  name, total, exp_calls, len(R["cands"]), M.get("calls")), "pos": None, "data": None, "meta": {"fault": "extreme"}})
+            ctx.count("extreme_model_agrees" if agree else "extreme_model_disagrees")
+            ctx.count("extreme_no_move_both" if agree and all(m == "0.0.0" for _, m, _ in R["calls"]) else "extreme_move_both" if agree else "extreme_other")
+        # the same probe under UBSan
+        rc, lines, err = run_harness(ub, "FEN %s\nFILE %s\nPROBE 1 ! %d\n" % (START_FEN, path, 3 * alarm), timeout=600 + 3 * alarm)
+        res = lines[1] if len(lines) > 1 else "no output"
+        if "runtime error" in err:
+            ctx.count("extreme_ubsan_error")
+            ctx.violation("undefined behaviour in the book probe on a crafted file (weight sum %d): %s" % (total, err.strip().split("\n")[0][:200]),
+                          dict(desc, ubsan=err.strip()[:600]), key=c.get("key_ubsan") or ("polyglot-file:%s:ubsan" % name))
+        elif not res.startswith("R "):
+            ctx.count("extreme_abnormal")
+            ctx.violation("book probe (UBSan build) does not return on a crafted file (weight sum %d): %s" % (total, res[:60]),
+                          dict(desc, observed=res[:300], stderr=err[-400:]), key=c.get("key_abnormal") or ("polyglot-file:%s:abnormal" % name))
+        else:
+            ctx.count("extreme_ubsan_clean")
+    out["alarm_s"] = alarm
     ctx.notes["extreme_inputs"] = out
 
 
@@ -809,19 +825,16 @@ def run(ctx):
                 break
         if ml:
             # (4) correspond: corpus first
-            corpus = os.path.join(VERIF, "corpus", "c18.txt")
-            if os.path.exists(corpus):
-                cb = []
-                for line in open(corpus):
-                    line = line.strip()
-                    if line and not line.startswith("#"):
-                        c = json.loads(line)
-                        rc, pl, _ = run_harness(cpp, "FEN %s\n" % c["fen"])
-                        p = parse_P(pl[0]) if pl else None
-                        if p:
-                            cb.append((bytes.fromhex(c["file_hex"]) if c.get("file_hex") is not None else None, [p], {"fault": "corpus"}))
-                if cb:
-                    account(ctx, correspond_chunk(1, cpp, ml, tmpdir, cb, 8, "corpus"), spec_fail, diffs, fatals)
+            cb = []
+            for c in load_corpus():
+                if "gen" in c:
+                    continue                     # crafted weight-sum files: see confirm_extremes
+                rc, pl, _ = run_harness(cpp, "FEN %s\n" % c["fen"])
+                p = parse_P(pl[0]) if pl else None
+                if p:
+                    cb.append((bytes.fromhex(c["file_hex"]) if c.get("file_hex") is not None else None, [p], {"fault": "corpus"}))
+            if cb:
+                account(ctx, correspond_chunk(1, cpp, ml, tmpdir, cb, 8, "corpus"), spec_fail, diffs, fatals)
             items = run_stream(ctx, cpp, ml, tmpdir, pool, ctx.scale(640, 8000), ctx.scale(8, 8), "b",
                                max_fill=ctx.scale(2500, 60000))
             account(ctx, items, spec_fail, diffs, fatals)
@@ -875,7 +888,7 @@ def run(ctx):
         for f in fatals:
             diffs.append({"diff": f["fatal"], "pos": None, "data": None, "meta": {}})
         # extreme inputs (findings F7 and nextInt range) on the real code
-        confirm_extremes(ctx, cpp, tmpdir, pool[0])
+        confirm_extremes(ctx, cpp, ml, tmpdir, pool[0], diffs)
         ctx.log("extreme inputs done")
         # sanitizer build over the same generators (thorough)
         san = None
@@ -903,6 +916,8 @@ def run(ctx):
             return
         if not proof_broken and not diffs:
             return
+        if proof_broken and not diffs and any(not nfi for _, _, nfi in ctx.violations):
+            return        # the crafted files already gave concrete failing inputs for the broken tie
         # (5) find
         replay = {"broken_proof": info if proof_broken else None, "translator": tie_broken, "disagreement": None}
         first = []
@@ -946,12 +961,12 @@ def replay(ctx, body):
         if it.get("file_hex") is not None:
             with open(path, "wb") as f:
                 f.write(bytes.fromhex(it["file_hex"]))
-        elif "bytes" in it and "entries" in str(it.get("file", "")):
-            rc, pl, _ = run_harness(cpp, "FEN %s\n" % START_FEN)
+        elif it.get("gen"):
+            rc, pl, _ = run_harness(cpp, "FEN %s\n" % fen)
             p = parse_P(pl[0])
-            n = it["bytes"] // 16
+            ws = [w for cnt, w in it["gen"]["weights"] for _ in range(cnt)]
             with open(path, "wb") as f:
-                f.write(one_key_file(p, p["pg"][p["legal"].index("12.28.0")], [65535] * n))
+                f.write(one_key_file(p, p["pg"][p["legal"].index(it["gen"]["move"])], ws))
         rc, lines, err = run_harness(cpp, "SEED 1\nFILE %s\nFEN %s\nPROBE 8 ! 5\n" % (path, fen), timeout=120)
         print("fen:", fen)
         print("book file:", path, "(missing)" if not os.path.exists(path) else "%d bytes" % os.path.getsize(path))
